@@ -428,6 +428,72 @@ def run(facts, cg):
                             guarded = True
                 if not guarded:
                     finding('R-HASHEQ', b.q, 'user-length', 'a user supplied checksum is compared by common prefix only at %s (HashSum::eq ignores a length difference)' % t['loc'])
+    # a checksum given on the command line becomes a HashSum through `HashSum::from`, which cuts what it is given to 64 bytes: a longer
+    # value can never be equal to a header checksum and would match one after the cut (F15).  The conversion is dominated by a
+    # comparison of the length of what is converted with a constant <= 64 whose "longer" side reaches error exits only.
+    from .r_steps import exit_outcomes_from
+    n_user = 0
+    for b in facts.bodies.values():
+        if b.generated or b.crate != 'bita':
+            continue
+        for bi, t in b.calls():
+            rq = t['callee'].get('rq', '') or ''
+            if not (rq.startswith('<bitar::hashsum::HashSum as core::convert::From') or
+                    (callee_q(t).endswith('Into::into') and t['dest'] and b.lty(t['dest']['l']).get('adt') == HASHSUM and not t['dest']['p'])):
+                continue
+            src = simplify(T.resolve_env(simplify(T.of_operand(b, t['args'][0]))))
+            cs = calls_in(src)
+            if any(c.endswith(('::finalize', 'HashSum::b2_digest', '::digest')) for c in cs):
+                continue            # a digest is 64 bytes by construction
+            n_user += 1
+            dom = b.dominators().get(bi, set())
+            guarded = None
+            for cbi in dom:
+                sw = b.blocks[cbi]['term']
+                if sw['k'] != 'switch' or sw['op']['k'] not in ('copy', 'move'):
+                    continue
+                cterm = simplify(T.resolve_env(simplify(T.of_operand(b, sw['op']))))
+                if not (isinstance(cterm, tuple) and cterm[0] == 'binop' and cterm[1] in ('Gt', 'Ge', 'Lt', 'Le')):
+                    continue
+                x, y = cterm[2], cterm[3]
+                op = cterm[1]
+                if isinstance(x, tuple) and x[0] == 'const':
+                    x, y, op = y, x, {'Gt': 'Lt', 'Ge': 'Le', 'Lt': 'Gt', 'Le': 'Ge'}[op]
+                if not (isinstance(y, tuple) and y[0] == 'const' and isinstance(y[1], int)):
+                    continue
+                if not (isinstance(x, tuple) and x[0] == 'call' and x[1].split('::')[-1] == 'len' and x[2] and freeze(x[2][0]) == freeze(src)):
+                    continue
+                t_edge, f_edge = sw['otherwise'], dict(zip(sw['vals'], sw['targets'])).get(0)
+                # the edge taken when the value is longer than the bound
+                if op == 'Gt' and y[1] <= 64:
+                    long_edge = t_edge
+                elif op == 'Ge' and y[1] <= 65:
+                    long_edge = t_edge
+                elif op == 'Le' and y[1] <= 64:
+                    long_edge = f_edge
+                elif op == 'Lt' and y[1] <= 65:
+                    long_edge = f_edge
+                else:
+                    continue
+                if long_edge is not None and exit_outcomes_from(b, long_edge) <= {'Err'}:
+                    guarded = sw['loc']
+            instances.append({'rule': 'R-HASHEQ(user-truncated)', 'function': b.q, 'at': t['loc'], 'length_checked_at': guarded})
+            if not guarded:
+                finding('R-HASHEQ', b.q, 'user-truncated', 'a checksum from the command line is turned into a hash sum at %s without its length having been compared with the 64 bytes '
+                        'a hash sum holds: HashSum::from cuts a longer value, which then matches a checksum it can never be equal to' % t['loc'])
+    # ... the conversion handed on as a function value (`.map(HashSum::from)`) converts whatever arrives, unchecked
+    for b in facts.bodies.values():
+        if b.generated or b.crate != 'bita':
+            continue
+        for bi, t in b.calls():
+            for a in t['args']:
+                if a.get('k') == 'const' and a.get('fn') and a.get('s', '').replace(' ', '').startswith(('<bitar::HashSumasstd::convert::From<', '<bitar::hashsum::HashSumasstd::convert::From<')):
+                    n_user += 1
+                    instances.append({'rule': 'R-HASHEQ(user-truncated)', 'function': b.q, 'at': t['loc'], 'length_checked_at': None})
+                    finding('R-HASHEQ', b.q, 'user-truncated', 'a checksum from the command line is turned into a hash sum at %s (conversion passed as a function) without its length '
+                            'having been compared with the 64 bytes a hash sum holds: HashSum::from cuts a longer value, which then matches a checksum it can never be equal to' % t['loc'])
+    if n_user < 1:
+        finding('R-HASHEQ', '-', 'floor-user', 'the conversion of the --verify-header argument into a hash sum was not found (cannot decide)')
     if nsites < 3:
         finding('R-HASHEQ', '-', 'floor', 'expected at least 3 authenticating HashSum comparisons, found %d (cannot decide)' % nsites)
     return instances, findings
